@@ -40,6 +40,10 @@ ATOMS = {
     "upper": ("UFN({a})", {"ufn"}),
     "spaced": ("ufn ( {a} )", {"ufn"}),
     "noargfn": ("ufn0()", {"ufn0"}),
+    # references inside grouping parentheses (a parenthesis level that holds no `name(` of its own)
+    "grouped": ("2 * (ufn({a}) + 1)", {"ufn"}),
+    "grouped2": ("((ufn2({a})))", {"ufn2"}),
+    "grouped-arr": ("(larr({a}) + (marr(1)))", set()),
 }
 WRAPPERS = ["ufn", "larr", "intrinsic", "gen", "comp"]
 
@@ -79,6 +83,14 @@ STMTS = [
     ("associate", ["associate (aa => {e})", "  r = aa + {f}", "end associate"], set()),
     ("associate-shadow", ["associate (ufn2 => larr)", "  r = ufn2(1) + {e}", "end associate"], set()),
     ("associate-nested", ["associate (aa => {e})", "  associate (bb => aa)", "    r = bb", "  end associate", "  r = {f}", "end associate"], set()),
+    ("associate-upper", ["associate (AA => {e}, Q => larr)", "  r = aa + q(2) + {f}", "end associate"], set()),
+    ("associate-shadow-upper", ["associate (UFN2 => larr)", "  r = ufn2(1) + {e}", "end associate"], set()),
+    ("associate-shadow-mixed", ["Associate (Ufn2 => larr)", "  r = UFN2(1) + {e}", "End Associate"], set()),
+    ("associate-tbp", ["associate (ob => obj)", "  r = ob%tbp({e})", "end associate"], {"tbp"}),
+    ("associate-tbp-upper", ["associate (OB => obj)", "  r = ob%tbp({e}) + ob%comp(1)", "end associate"], {"tbp"}),
+    ("implied-do", ["print *, ({e}, i = 1, 3)"], set()),
+    ("if-grouped", ["if (({e}) > 0) r = ({f})"], set()),
+    ("call-grouped", ["call usub(2 * ({e} + 1))"], {"usub"}),
     ("block", ["block", "  integer :: bl", "  bl = {e}", "end block"], set()),
     ("print", ["print *, {e}, {f}"], set()),
     ("write", ["write(*,*) {e}"], set()),
@@ -210,7 +222,7 @@ def run_case(st: Stats, case):
         want |= set(own) | (ec if used_e else set()) | (fc if used_f else set())
         if sname == "if-goto-computed":
             goto_calls |= ec
-        if sname == "associate-shadow":
+        if sname.startswith("associate-shadow"):
             want.discard("ufn2")  # inside the construct ufn2 is the associate name of an array
     src = program_text(caller, body)
     r = fordrun.build_fast({"src/m.f90": src}, dict(display=["public", "private", "protected"], proc_internals=True))
